@@ -42,6 +42,9 @@ def floors(tier):
 
 def cases(tier, seed):
     yield {"canary": "optimized-set-index"}
+    # planner state computed by sampling (quantile divisions): large enough partitions that dask really samples
+    for i, (col, np_, kind) in enumerate([("g", 4, "set_index"), ("k", 3, "set_index"), ("f2", 5, "sort_values"), ("g", 6, "sort_values")]):
+        yield {"big": [col, np_, kind, i], "forms": FORMS}
     profiles = ["planner_state", "default", "planner_state", "structure", "projection", "blockwise"]
     for i in range(CONFIG[tier]["programs"]):
         yield {"gen": [seed, i], "profile": profiles[i % len(profiles)]}
@@ -55,6 +58,11 @@ def canary_prog():
 def run_case(case):
     if case.get("canary"):
         prog = canary_prog()
+    elif case.get("big"):
+        col, np_, kind, i = case["big"]
+        prog = {"tables": [{"seed": 77 + i, "n": 160, "index": "range", "ridbase": 0}], "sources": [{"table": 0, "layout": {"kind": "from_pandas", "npartitions": np_, "sort": True}}],
+                "steps": [{"op": "set_index", "in": [0], "p": {"col": col if col != "f2" else "g", "drop": True}} if kind == "set_index" else
+                          {"op": "sort_values", "in": [0], "p": {"by": [col if col != "f2" else "g", "rid"], "ascending": True}}], "out": 1}
     else:
         prog = case["prog"] if "prog" in case else progcase.gen_prog(("C16",) + tuple(case["gen"]), profile=case.get("profile", "default"), layout_kw=None)
     counters = {}
@@ -73,7 +81,7 @@ def run_case(case):
         return {"status": "refused", "counters": {"build_refused": 1}}
     flags = {"order": b.out_pd.order, "index": b.out_pd.index}
     q = b.out_dx
-    forms = case.get("forms") or (FORMS if case.get("canary") else rng.sample(FORMS, 2))
+    forms = case.get("forms") or (FORMS if (case.get("canary") or case.get("big")) else rng.sample(FORMS, 2))
     scratch = os.environ.get("VMON_SCRATCH", "/tmp")
     viol = None
     from dask_expr import new_collection
@@ -107,6 +115,8 @@ def run_case(case):
                 pickle.dump({"pickle": blob, "origin": origin, "flags": flags, "shuffle": method}, fh)
             env = dict(os.environ)
             env["PYTHONPATH"] = VERIF_DIR + (os.pathsep + env["PYTHONPATH"] if env.get("PYTHONPATH") else "")
+            # "another process" means another hash seed as well (the worker runs with PYTHONHASHSEED=0)
+            env["PYTHONHASHSEED"] = ["random", "1", "2", "random"][len(path) % 4]
             try:
                 r = subprocess.run([sys.executable, "-W", "ignore", "-m", "vmon.receiver", path], env=env, capture_output=True, text=True, timeout=100)
             except subprocess.TimeoutExpired:
